@@ -336,6 +336,20 @@ func TestArgumentTables(t *testing.T) {
 			run(fmt.Sprintf("subjclass/%d/%d", si, ci), map[string]any{"kx": subj, "keep": int64(42)}, mk(), gen.NCall("probe", str("k2/out"), gen.NCall("get_key", str("k2")), gen.NCall("get_key", str("out"))))
 		}
 	}
+	// load_json: the decoded document is a fresh value each time - a script may write to it; the subject text is untouched
+	for di, doc := range []string{"{\"a\": 1, \"items\": [1, 2]}", "[1, [2, 3], {\"k\": null}]", "{}", "[]", "\"str\"", "12", "null", "{\"a\": {\"b\": {\"c\": [true]}}}", "{bad", "", "[1, 2", "{\"dup\": 1, \"dup\": 2}", "1e400", "[1.0, 2.50, 1e2, -0.0]", "\"\\ud83d\\ude00 \\u00e9\""} {
+		if di%evid.NShards() != evid.Shard() {
+			continue
+		}
+		run(fmt.Sprintf("load_json/%d", di), map[string]any{"kx": doc, "keep": int64(42)},
+			gen.NSet("d", gen.NCall("load_json", id("kx"))), gen.NCall("probe", str("first"), id("d")),
+			gen.NIf([]*gen.Node{gen.NBool(true)}, [][]*gen.Node{{gen.NAssign("=", []*gen.Node{gen.NIndex(id("d"), str("extra"))}, []*gen.Node{gen.NBool(true)})}}, nil, false),
+			gen.NSet("e", gen.NCall("load_json", id("kx"))), gen.NCall("probe", str("again"), id("e"), id("kx")))
+		run(fmt.Sprintf("load_json-list/%d", di), map[string]any{"kx": doc, "keep": int64(42)},
+			gen.NSet("d", gen.NCall("load_json", id("kx"))), gen.NCall("probe", str("first"), id("d")),
+			gen.NIf([]*gen.Node{gen.NBool(true)}, [][]*gen.Node{{gen.NAssign("=", []*gen.Node{gen.NIndex(id("d"), gen.NInt(0))}, []*gen.Node{str("w")})}}, nil, false),
+			gen.NSet("e", gen.NCall("load_json", id("kx"))), gen.NCall("probe", str("again"), id("e")))
+	}
 	verbs := []string{"%v", "%d", "%s", "%5.1f", "%q", "%x", "%t", "%08.3f", "%-6d|", "%+d", "%%", "%5s|", "%T", "%c", "%e"}
 	fargs := []func() *gen.Node{
 		func() *gen.Node { return gen.NInt(42) }, func() *gen.Node { return gen.NFloat(2.25) }, func() *gen.Node { return str("s é") },
